@@ -72,6 +72,8 @@ def render(t, style="min", sp=""):
     sp: '' no spaces, ' ' spaces around binary operators, 'x' also after unary ops / inside parentheses."""
     pad = " " if sp == "x" else ""
     bsp = " " if sp in (" ", "x") else ""
+    lsp = " " if sp == "l" else bsp   # "l": a blank BEFORE each binary operator only;  "r": only after it
+    rsp = " " if sp == "r" else bsp
 
     def par(s):
         return f"({pad}{s}{pad})"
@@ -97,7 +99,7 @@ def render(t, style="min", sp=""):
                 ls = par(ls)
             if rt[0] == "b" and PREC[rt[1]] >= PREC[op]:
                 rs = par(rs)
-        r = f"{ls}{bsp}{op}{bsp}{rs}"
+        r = f"{ls}{lsp}{op}{rsp}{rs}"
         return par(r) if style == "full" else r
 
     return go(t)
